@@ -1,5 +1,6 @@
 import NgVerif.Model.Prim
 import NgVerif.Generated.Tables
+import NgVerif.Model.Tiling
 /-
   Slices: the index map of `scripts/slices_to_precomputed.slices_to_raw_chunks`.
   Orientation code letter `a` (a = 0 column, 1 row, 2 slice) gives the RAS axis of input axis `a`
@@ -39,5 +40,52 @@ def groupFiles (n cs g : Nat) (reversed : Bool) : List Nat :=
   let first := cs * g
   let last := min (cs * (g + 1)) n
   (List.range (last - first)).map fun k => if reversed then n - 1 - (first + k) else first + k
+
+/-! ### the chunk loop of `slices_to_raw_chunks` at index level
+
+    A pixel of the input stack is `[column, row, slice]`; an output voxel is `[x, y, z]` (RAS).
+    `perm[a]` is the output axis of input axis `a` (0 column, 1 row, 2 slice), `inv[a] = -1` iff that
+    axis is reversed. The code loads the slices of group `g` (`groupFiles`), flips rows/columns by
+    slicing with step `inv`, moves the axes with `np.moveaxis(block, (3, 2, 1), (3 - perm[0], 3 - perm[1],
+    3 - perm[2]))`, cuts the block with the slicings `permute(input_slicing, invert_permutation(perm))`
+    and writes each piece at `permute(input_coords, invert_permutation(perm))`. -/
+
+/-- `utils.permute`: `tuple(seq[i] for i in p)` -/
+def permute {α} (seq : List α) (p : List Nat) (d : α) : List α := p.map fun i => seq.getD i d
+
+/-- `utils.invert_permutation`: `s[p[a]] = a` -/
+def invertPerm (p : List Nat) : List Nat := (List.range p.length).map fun i => p.idxOf i
+
+/-- the input pixel that ends up at ABSOLUTE output position `o` while slice group `g` is processed:
+    flipped block index along columns and rows, position within the loaded group along slices -/
+def pixelAt (perm : List Nat) (inv : List Int) (nIn : List Nat) (csSlice g : Nat) (o : List Nat) : List Nat :=
+  [ flipIdx (inv.getD 0 1) (nIn.getD 0 0) (o.getD (perm.getD 0 0) 0),
+    flipIdx (inv.getD 1 1) (nIn.getD 1 0) (o.getD (perm.getD 1 0) 0),
+    (groupFiles (nIn.getD 2 0) csSlice g (inv.getD 2 1 == -1)).getD (o.getD (perm.getD 2 0) 0 - csSlice * g) 0 ]
+
+/-- positions of a box `[(x0,x1),(y0,y1),(z0,z1)]` in the C order of a `(Z, Y, X)` chunk -/
+def boxVoxels (box : List (Nat × Nat)) : List (List Nat) :=
+  let bx := box.getD 0 (0, 0); let by' := box.getD 1 (0, 0); let bz := box.getD 2 (0, 0)
+  (List.range (bz.2 - bz.1)).flatMap fun dz => (List.range (by'.2 - by'.1)).flatMap fun dy =>
+    (List.range (bx.2 - bx.1)).map fun dx => [bx.1 + dx, by'.1 + dy, bz.1 + dz]
+
+structure SChunk where
+  box : List (Nat × Nat)
+  pix : List (List Nat)
+  deriving Repr
+
+/-- every `write_chunk` call of one conversion, in order: slice groups, then row chunks, then
+    column chunks; `size` and `chunk` are the info's (x, y, z) size and chunk size -/
+def stackChunks (perm : List Nat) (inv : List Int) (size chunk : List Nat) : List SChunk :=
+  let nIn := permute size perm 0
+  let csIn := permute chunk perm 1
+  let pti := invertPerm perm
+  let n2 := nIn.getD 2 0
+  let c2 := csIn.getD 2 1
+  (List.range (Tiling.count n2 c2)).flatMap fun g =>
+    (Tiling.ranges (nIn.getD 1 0) (csIn.getD 1 1)).flatMap fun rr =>
+      (Tiling.ranges (nIn.getD 0 0) (csIn.getD 0 1)).map fun cr =>
+        let box := permute [cr, rr, (c2 * g, min (c2 * (g + 1)) n2)] pti (0, 0)
+        ⟨box, (boxVoxels box).map (pixelAt perm inv nIn c2 g)⟩
 
 end NgVerif.Slices
